@@ -58,7 +58,7 @@ func (fr *Frame) callWith(st *State, c *ssa.CallCommon, args []Val, fnv Val, pos
 			}
 		}
 		all := append([]Val{recv}, args...)
-		if fc := vc.prog.cs.Funcs[key]; fc != nil {
+		if fc := vc.fcOf(key); fc != nil {
 			// a contract on the interface method itself (an assumed model).  When the dynamic type is statically evident
 			// and the concrete method has a contract of its own (verified against its body), that one is used instead.
 			if res, ok := fr.dispatchEvident(st, c, recv, args, pos); ok {
@@ -83,7 +83,7 @@ func (fr *Frame) callWith(st *State, c *ssa.CallCommon, args []Val, fnv Val, pos
 		// call through a function-valued struct field, x.F(args): an `extern pkg.Type.F(x, args...)` block is the
 		// assumed contract of whatever function the field holds (first parameter = the object x)
 		if key, fa, ok := funcFieldCall(c.Value); ok {
-			if fc := vc.prog.cs.Funcs[key]; fc != nil && fc.Extern {
+			if fc := vc.fcOf(key); fc != nil && fc.Extern {
 				fr.safety("nilfunc", fr.curCond, "(not (= "+fnv.C[0]+" 0))", pos, "call of a nil function value")
 				return fr.applyContract(st, fc, key, nil, sig, append([]Val{fr.val(fa.X)}, args...), pos)
 			}
@@ -108,7 +108,7 @@ func (fr *Frame) staticCall(st *State, callee *ssa.Function, args []Val, binding
 	if res, ok := fr.intrinsic(st, callee, key, args, pos); ok {
 		return res
 	}
-	fc := vc.prog.cs.Funcs[key]
+	fc := vc.fcOf(key)
 	top := fr.top()
 	if top.fc != nil && top.fc.Opts["abstract"] != "" {
 		// `abstract pkg.F ...` in the unit's contract: calls to these callees are over-approximated by an arbitrary
@@ -174,12 +174,20 @@ func (fr *Frame) dispatchEvident(st *State, c *ssa.CallCommon, recv Val, args []
 	if _, err := strconv.Atoi(recv.C[0]); err != nil {
 		return nil, false
 	}
+	// a model namespace of this unit's package that specifies the interface method itself wins over the concrete
+	// method's contract (the model is the vocabulary the unit's other contracts are written in)
+	ik := ifaceMethodKey(c.Value.Type(), c.Method.Name())
+	for _, m := range vc.models {
+		if vc.prog.cs.Funcs[m+"::"+ik] != nil {
+			return nil, false
+		}
+	}
 	for _, im := range vc.prog.implementations(c.Value.Type(), c.Method.Name()) {
 		if recv.C[0] != vc.typeID(im.pt) {
 			continue
 		}
 		ckey := funcKey(im.fn)
-		fc := vc.prog.cs.Funcs[ckey]
+		fc := vc.fcOf(ckey)
 		if fc != nil && !fc.Inline && fc.applicable(fr.top().view) {
 			all := append([]Val{{T: im.pt, C: []string{recv.C[1]}}}, args...)
 			return fr.applyContract(st, fc, ckey, im.fn, im.fn.Signature, all, pos), true
@@ -242,7 +250,7 @@ func (fr *Frame) inline(st *State, callee *ssa.Function, args []Val, bindings []
 	top := fr.top()
 	key := funcKey(callee)
 	vc.inlined[key] = true
-	nf := &Frame{vc: vc, fn: callee, fc: vc.prog.cs.Funcs[key], parent: fr, depth: fr.depth + 1, regs: map[ssa.Value]Val{},
+	nf := &Frame{vc: vc, fn: callee, fc: vc.fcOf(key), parent: fr, depth: fr.depth + 1, regs: map[ssa.Value]Val{},
 		oblFn: top.oblFn, pathCond: fr.curCond}
 	lbl := callee.Name()
 	if callee.Signature.Recv() != nil {
@@ -991,7 +999,40 @@ func (fr *Frame) appendBuiltin(st *State, args []Val, pos token.Pos) Val {
 		vc.axiom("(=> " + fits + " (forall ((k " + i + ")) (! (=> (or " + vc.ilt("k", vc.iadd(s.C[1], s.C[2])) + " " + vc.ile(vc.iadd(s.C[1], newLen), "k") + ") (= (select " + newA + " k) (select " + oldA + " k))) :pattern ((select " + newA + " k)))))")
 		vc.hset(st, key, srt, "(store "+h+" "+resArr+" "+newA+")")
 	}
+	// token view of package io (a byte array stands for the token stream it holds): a fresh array that is a full copy of
+	// a byte slice (append to an empty slice without capacity, e.g. append([]byte(nil), b...)) stands for the stream that
+	// b's array stands for.  Same abstraction as DataInputX.ReadBlob / compressutil.UnZip in that view; reported as an assumption.
+	if tokViewBytes(fr.top().view, et) && !addIsStr && vc.mode == ModeInt {
+		copied := "(and (not " + fits + ") (= " + s.C[2] + " " + vc.idx(0) + "))"
+		for _, name := range ioStreamGhosts {
+			key := "G:ghost.io." + name
+			srt, ok := vc.heapSorts[key]
+			if !ok {
+				continue
+			}
+			h := vc.hget(st, key, srt)
+			vc.hset(st, key, srt, "(ite "+copied+" (store "+h+" "+narr+" (select "+h+" "+add.C[0]+")) "+h+")")
+			vc.assumptions["token view: a full copy of a byte slice made with append (append([]byte(nil), b...)) stands for the same token stream as b's array"] = true
+		}
+	}
 	return Val{T: s.T, C: []string{resArr, resOff, newLen, resCap}}
+}
+
+// the ghost maps of package io that give the token stream denoted by a byte array (zz_tokens_verif.go)
+var ioStreamGhosts = []string{"S_n", "S_k", "S_i", "S_s", "S_r", "S_o"}
+
+// tokViewBytes: the unit selected the token view and the element type is byte
+func tokViewBytes(views string, et types.Type) bool {
+	b, ok := et.Underlying().(*types.Basic)
+	if !ok || b.Kind() != types.Uint8 {
+		return false
+	}
+	for _, v := range strings.Fields(views) {
+		if v == "tok" {
+			return true
+		}
+	}
+	return false
 }
 
 func (fr *Frame) copyBuiltin(st *State, args []Val, pos token.Pos) Val {
@@ -1065,6 +1106,10 @@ func (fr *Frame) loopWrites(li *loopInfo) *writeSet {
 	for hb, lj := range fr.loops {
 		if li.body[hb] && lj.spec != nil {
 			fr.ghostSetKeys(w, lj.spec.Sets)
+			if lj != li {
+				// a nested loop is entered (and its `init` updates run) in every iteration of this loop
+				fr.ghostSetKeys(w, lj.spec.Inits)
+			}
 		}
 	}
 	return w
@@ -1221,6 +1266,12 @@ func (fr *Frame) callWrites(w *writeSet, c *ssa.CallCommon, seen map[*ssa.Functi
 		case "append", "copy":
 			if sl, ok := c.Args[0].Type().Underlying().(*types.Slice); ok && !isAggregate(sl.Elem()) {
 				w.keys[elemKey(sl.Elem())] = true
+				if b.Name() == "append" && tokViewBytes(fr.top().view, sl.Elem()) {
+					// token view: the copy carries the stream of its source (see appendBuiltin)
+					for _, name := range ioStreamGhosts {
+						w.keys["G:ghost.io."+name] = true
+					}
+				}
 			}
 		}
 		return
@@ -1229,9 +1280,9 @@ func (fr *Frame) callWrites(w *writeSet, c *ssa.CallCommon, seen map[*ssa.Functi
 	var callee *ssa.Function
 	var fieldFn *ssa.FieldAddr
 	if c.IsInvoke() {
-		fc = vc.prog.cs.Funcs[ifaceMethodKey(c.Value.Type(), c.Method.Name())]
-	} else if key, fa, ok := funcFieldCall(c.Value); ok && c.StaticCallee() == nil && vc.prog.cs.Funcs[key] != nil && vc.prog.cs.Funcs[key].Extern {
-		fc, fieldFn = vc.prog.cs.Funcs[key], fa
+		fc = vc.fcOf(ifaceMethodKey(c.Value.Type(), c.Method.Name()))
+	} else if key, fa, ok := funcFieldCall(c.Value); ok && c.StaticCallee() == nil && vc.fcOf(key) != nil && vc.fcOf(key).Extern {
+		fc, fieldFn = vc.fcOf(key), fa
 	} else {
 		callee = c.StaticCallee()
 		if callee == nil {
@@ -1249,7 +1300,7 @@ func (fr *Frame) callWrites(w *writeSet, c *ssa.CallCommon, seen map[*ssa.Functi
 				w.all = true
 				return
 			}
-			fc = vc.prog.cs.Funcs[key]
+			fc = vc.fcOf(key)
 		}
 	}
 	useContract := fc != nil && !fc.Inline && fc.applicable(fr.top().view)
@@ -1258,7 +1309,7 @@ func (fr *Frame) callWrites(w *writeSet, c *ssa.CallCommon, seen map[*ssa.Functi
 		// evident type whose concrete method has a contract): the write set covers every implementation - the modifies
 		// clause of its contract (ghost state included) or, without an applicable contract, the writes of its body
 		for _, im := range vc.prog.implementations(c.Value.Type(), c.Method.Name()) {
-			if ifc := vc.prog.cs.Funcs[funcKey(im.fn)]; ifc != nil && !ifc.Inline && ifc.applicable(fr.top().view) && !fr.top().lockOnly {
+			if ifc := vc.fcOf(funcKey(im.fn)); ifc != nil && !ifc.Inline && ifc.applicable(fr.top().view) && !fr.top().lockOnly {
 				if ifc.ModAll {
 					w.all = true
 					continue
@@ -1343,10 +1394,11 @@ func (fr *Frame) callWrites(w *writeSet, c *ssa.CallCommon, seen map[*ssa.Functi
 			return
 		}
 		seen[callee] = true
-		if cfc := vc.prog.cs.Funcs[funcKey(callee)]; cfc != nil {
+		if cfc := vc.fcOf(funcKey(callee)); cfc != nil {
 			// an inlined callee executes the ghost updates of its loops
 			for _, ls := range cfc.Loops {
 				fr.ghostSetKeys(w, ls.Sets)
+				fr.ghostSetKeys(w, ls.Inits)
 			}
 		}
 		for _, b := range callee.Blocks {
